@@ -66,6 +66,55 @@ pub fn shapes(tier: Tier) -> Vec<Shape> {
         let mut s = cfgd("error-in-join-build", p, b, &[], format!("SELECT * FROM {L} JOIN (SELECT CAST(z AS INT) AS a FROM (VALUES ('2'),('q'),('3')) v(z)) r ON l.a = r.a"));
         s.expect_error = true;
         out.push(s);
+        // inputs that end without producing a row, one per way an operator below can swallow its input:
+        // a filter (zero-row batches still flow), an inner join without matches and a LIMIT whose OFFSET
+        // skips everything (the operator above is finalized without ever being executed). Each barrier
+        // operator is driven with such an input on either side.
+        let empties: [(&str, String, String); 3] = [
+            ("filter", format!("(SELECT a, x FROM {L} WHERE a > 100) l"), format!("(SELECT a, y FROM {R} WHERE a > 100) r")),
+            ("nomatch-join", format!("(SELECT l0.a, l0.x FROM (VALUES (1,'a'),(2,'b'),(2,'c'),(NULL,'d'),(3,'e')) l0(a,x) JOIN (VALUES (101),(102),(103),(104)) q(z) ON l0.a = q.z) l"), format!("(SELECT r0.a, r0.y FROM (VALUES (2,10),(2,20),(3,30),(NULL,40),(4,50)) r0(a,y) JOIN (VALUES (101),(102),(103),(104)) q(z) ON r0.a = q.z) r")),
+            ("offset-all", format!("(SELECT a, x FROM {L} LIMIT 3 OFFSET 10) l"), format!("(SELECT a, y FROM {R} LIMIT 3 OFFSET 10) r")),
+        ];
+        for (en, el, er) in &empties {
+            for (side, l, r) in [("L", el.as_str(), R), ("R", L, er.as_str())] {
+                let joins: [(&str, String); 7] = [
+                    ("inner", format!("SELECT * FROM {l} JOIN {r} ON l.a = r.a")),
+                    ("left", format!("SELECT * FROM {l} LEFT JOIN {r} ON l.a = r.a")),
+                    ("right", format!("SELECT * FROM {l} RIGHT JOIN {r} ON l.a = r.a")),
+                    ("full", format!("SELECT * FROM {l} FULL JOIN {r} ON l.a = r.a")),
+                    ("semi", format!("SELECT * FROM {l} WHERE a IN (SELECT a FROM {r})")),
+                    ("anti", format!("SELECT * FROM {l} WHERE NOT EXISTS (SELECT 1 FROM {r} WHERE r.a = l.a)")),
+                    ("mark", format!("SELECT * FROM {l} WHERE a IN (SELECT a FROM {r}) OR x = 'a'")),
+                ];
+                for (jn, q) in joins {
+                    if !tier.is_thorough() && (jn == "inner" || jn == "mark") && *en == "filter" {
+                        continue;
+                    }
+                    out.push(cfgd(&format!("empty-{en}-{side}-hashjoin-{jn}"), p, b, &[], q));
+                }
+                if *en != "filter" || tier.is_thorough() {
+                    out.push(cfgd(&format!("empty-{en}-{side}-nljoin-left"), p, b, &["SET enable_hash_joins TO false"], format!("SELECT * FROM {l} LEFT JOIN {r} ON l.a = r.a")));
+                    out.push(cfgd(&format!("empty-{en}-{side}-nljoin-right"), p, b, &["SET enable_hash_joins TO false"], format!("SELECT * FROM {l} RIGHT JOIN {r} ON l.a = r.a")));
+                }
+            }
+            let unary: [(&str, String, bool); 7] = [
+                ("groupby", format!("SELECT a, count(*) FROM {el} GROUP BY a"), false),
+                ("agg-global", format!("SELECT count(*), sum(a) FROM {el}"), false),
+                ("agg-distinct", format!("SELECT count(DISTINCT a) FROM {el}"), false),
+                ("distinct", format!("SELECT DISTINCT a FROM {el}"), false),
+                ("sort", format!("SELECT a, x FROM {el} ORDER BY a, x"), true),
+                ("union", format!("SELECT a FROM {el} UNION SELECT a FROM {R}"), false),
+                ("matcte", format!("WITH c AS MATERIALIZED (SELECT a, x FROM {el}) SELECT a FROM c UNION ALL SELECT a FROM c"), false),
+            ];
+            for (un, q, ordered) in unary {
+                if *en == "filter" && !tier.is_thorough() {
+                    continue;
+                }
+                let mut s = cfgd(&format!("empty-{en}-{un}"), p, b, &[], q);
+                s.ordered = ordered;
+                out.push(s);
+            }
+        }
         // DML: every row visible exactly once afterwards
         let mut s = cfgd("insert-select", p, b, &[], format!("INSERT INTO x SELECT a, y FROM {R}"));
         s.per_run = vec!["DROP TABLE IF EXISTS x".into(), "CREATE TEMP TABLE x (a INT, y INT)".into(), "INSERT INTO x VALUES (0, 0)".into()];
